@@ -117,7 +117,10 @@ def build(workdir, res, name="p", sanitize=False, extra_cflags=()):
     out = os.path.join(workdir, "drv_san" if sanitize else "drv")
     common = ['-I', workdir, '-I', CDRV, '-DGLUE_HEADER="glue.h"', '-w']
     if sanitize:
-        cc = ['clang', '-O1', '-g', '-fsanitize=address,undefined', '-fno-sanitize-recover=undefined', '-fno-omit-frame-pointer']
+        # memory-safety checks only: arithmetic UB of the *user's* expressions (shift counts, signed overflow, division) is
+        # outside the properties and must not abort the recorder
+        san = 'address,bounds,null,alignment,object-size,pointer-overflow,bool,enum,vla-bound,unreachable,return'
+        cc = ['clang', '-O1', '-g', '-fsanitize=' + san, '-fno-sanitize-recover=all', '-fno-omit-frame-pointer']
     else:
         cc = ['gcc', '-O1']
     # the generated source is compiled with malloc/free redirected; the driver itself is not
